@@ -195,13 +195,14 @@ for _pid, _text in ROUND6.items():
 
 # Fifth round of seeded changes (DESIGN.md 9.17)
 ROUND7: dict[str, str] = {
-    "C01": "Fifth seeded round: the step that completes the amplitude table must run on every formulate(): a call site of it (or an earlier return) under a guard that does not derive from the projection pools is a violation, a guard computed from the pools leaves the clause undecided.",
+    "C01": "Sixth seeded round: define_symbols of a spin alignment reads every configuration field that its formulate_amplitude reads - otherwise undecided, never a pass (R-ALIGNOPT). Fifth seeded round: the step that completes the amplitude table must run on every formulate(): a call site of it (or an earlier return) under a guard that does not derive from the projection pools is a violation, a guard computed from the pools leaves the clause undecided.",
     "C06": "Fifth seeded round: attrs `field(default=<mutable>)` is the same shared object as a mutable literal default.",
+    "C16": "Sixth seeded round: loads are identified by their call string; the value that is returned must come out of the very load whose value was compared with the query expression (key and result in two separately renamed files: violation); the load anchor is counted over the transitive reach of perform_cached_doit.",
     "C08": "Fifth seeded round: along the einsum printers and the package functions that receive their operands, the operand sequence is never collapsed to the distinct operands and read back as a collection (R-OPERANDS; role flow shared with C18 R-MULTISET).",
     "C09": "Fifth seeded round: a memoised builder may write into the matrix it builds, not into the result of another memoised builder.",
     "C10": "Fifth seeded round: as C09 (a memoised builder that rescales the cached result of another memoised builder in place is reported).",
-    "C14": "Fifth seeded round: the argument hook is interpreted on field layouts with optional fields too (instance holds the default object itself / another value, every combination for up to two optional trailing fields).",
-    "C15": "Fifth seeded round: as C14 - the pickle arguments may leave out only trailing fields that hold their default.",
+    "C14": "Sixth seeded round: evaluate() of an @unevaluated class (27 read) and the package helpers that receive its arguments never substitute FOR an own argument with xreplace / subs / replace (R-EVALSUBST); a `none` token stored for a None argument passes the guards of the same __new__ (R-REENTRANT, shared with C15). Fifth seeded round: the argument hook is interpreted on field layouts with optional fields too (instance holds the default object itself / another value, every combination for up to two optional trailing fields).",
+    "C15": "Sixth seeded round: R-REENTRANT also for the `none`-token conversion. Fifth seeded round: as C14 - the pickle arguments may leave out only trailing fields that hold their default.",
     "C18": "Fifth seeded round: along __new__ / evaluate / cleanup / doit and the package functions they call (roles: pairs, pools, pool, value, symbols propagated through locals, comprehensions and call arguments), the values of a pool are never collapsed to the distinct ones (set, dict key, dict.fromkeys) and then iterated, counted or returned (R-MULTISET); a memo that is only looked up is accepted; collapsing plus counting is undecided.",
     "C20": "Fifth seeded round: Kibble compared with a non-zero number (also through a parameter's default) is a violation - the indicator's boundary is Kibble = 0.",
 }
